@@ -799,7 +799,7 @@ class MinMaxAggregator:
             if (
                 b.ast_type == ASTType.Literal
                 and b.atom.ast_type == ASTType.BodyAggregate
-                and b.atom.function in (AggregateFunction.Sum, AggregateFunction.SumPlus)
+                and b.atom.function == AggregateFunction.Sum  # the differences of a chain are negative: not for #sum+
             ):
                 body.append(self._replace_results_in_sum_agg(b))
             else:
